@@ -15,7 +15,7 @@ The slice of a site is a *set* of canonical strings:
     reachable through some but not all successors; logging-macro switches excluded),
   * for closures / coroutine bodies: the slice of the captured values in the parent function, the
     call chain the closure is handed to, and the full bodies of the sibling closures in that chain.
-Locals are replaced by their types, so renaming a variable or inserting unrelated statements
+Locals are replaced by their types, so inserting unrelated statements or renaming a temporary
 does not change a slice; changing what an operand is computed from does."""
 import hashlib, json, re
 from mirq import *
@@ -30,6 +30,11 @@ class Canon:
         self.used = set()
 
     def ty(self, l):
+        # user-named locals keep their name (two flags of type bool must stay distinguishable; swapping the operands
+        # of `a - b` must be visible); compiler temporaries are known by their type only
+        nm = self.fn.local_name(l)
+        if nm:
+            return nm
         t = self.fn.local_ty(l) or '?'
         # closure types print their source position: not part of the meaning
         t = re.sub(r'\{(closure|coroutine|async \w+)@[^}]*\}', r'{\1}', t)
@@ -75,14 +80,14 @@ class Canon:
                     out[k] = sorted(str(p[0]) for p in v)
                     continue
                 if k in ('fn', 'decl', 'def') and isinstance(v, str):
-                    out[k] = re.sub(r'\{(closure|coroutine)@[^}]*\}', r'{\1}', v)
+                    out[k] = re.sub(r'\{(closure|coroutine)#\d+\}', r'{\1}', re.sub(r'\{(closure|coroutine)@[^}]*\}', r'{\1}', v))
                     continue
                 out[k] = self.any(v)
             return out
         if isinstance(x, list):
             return [self.any(v) for v in x]
         if isinstance(x, str):
-            return re.sub(r'\{(closure|coroutine|async \w+)@[^}]*\}', r'{\1}', x)
+            return re.sub(r'\{(closure|coroutine)#\d+\}', r'{\1}', re.sub(r'\{(closure|coroutine|async \w+)@[^}]*\}', r'{\1}', x))
         return x
 
     def text(self, x):
@@ -183,11 +188,11 @@ def data_slice(fn, seeds, items, prefix=''):
     return seen
 
 
-def guards(fn, bb, items, prefix=''):
+def guards(fn, bb, items, prefix='', within=None):
     used = set()
     chain = fn.dom_chain(bb)
     for d in chain:
-        if d == bb:
+        if d == bb or (within is not None and d not in within):
             continue
         t = fn.blocks[d]['t']
         if t['k'] != 'switch' or is_log_term(t):
@@ -200,7 +205,9 @@ def guards(fn, bb, items, prefix=''):
         if len(reach) == len(labels):
             continue
         c = Canon(fn)
-        items.add('%sguard %s in %s' % (prefix, c.text(t['x']), ','.join(sorted(reach))))
+        c.text(t['x'])
+        cond = re.sub(r'\{(closure|coroutine)#\d+\}', r'{\1}', re.sub(r'\b_\d+\b', '_', show(fn.expand(fn.operand_tree(t['x'])))))
+        items.add('%sguard %s in %s' % (prefix, cond[:600], ','.join(sorted(reach))))
         used |= c.used
     return used
 
@@ -248,7 +255,7 @@ def closure_context(fn, crate, items, depth=0):
                         p = a.get('m') or a.get('c')
                         if p and p['l'] == holder and not p.get('p'):
                             tree = par.expand(par.call_tree(t))
-                            txt = re.sub(r'\b_\d+\b', '_', show(tree))
+                            txt = re.sub(r'\{(closure|coroutine)#\d+\}', r'{\1}', re.sub(r'\b_\d+\b', '_', show(tree)))
                             items.add(pre + 'driven-by ' + txt[:1500])
                             for x in walk(tree):
                                 if isinstance(x, tuple) and x and x[0] == 'closure' and x[1] != fn.qual:
@@ -269,20 +276,31 @@ def site_items(fn, crate, term, bb):
     return items
 
 
+def guard_sig(fn, b, within=None):
+    """the branch decisions under which block b executes (restricted to guards inside `within`), as one short hash"""
+    tmp = set()
+    guards(fn, b, tmp, within=within)
+    return hashlib.sha1('|'.join(sorted(tmp)).encode()).hexdigest()[:8]
+
+
 def loop_items(fn, crate, blocks):
+    """every statement of the loop body, each tagged with the branch decisions (inside the loop) it executes under:
+    moving a statement into another branch changes the slice even though the set of statements does not"""
     items = set()
     used = set()
+    within = set(blocks)
     for b in blocks:
+        sig = guard_sig(fn, b, within)
         for s in fn.blocks[b]['s']:
             if s['k'] in ('live', 'dead', 'nop') or is_log_term(s):
                 continue   # log statements cannot change the iteration count (their panic edges are G1's business)
             c = Canon(fn)
-            items.add(c.text(s))
+            items.add(sig + ' ' + c.text(s))
             used |= c.used
         if is_log_term(fn.blocks[b]['t']):
             continue
         c = Canon(fn)
-        items.add(c.text(fn.blocks[b]['t']))
+        items.add(sig + ' ' + c.text(fn.blocks[b]['t']))
         used |= c.used
     data_slice(fn, used, items, 'in: ')
     closure_context(fn, crate, items)
